@@ -381,6 +381,30 @@ def tok_range_for_lines(info, a, b):
     return (min(idx), max(idx)) if idx else None
 
 
+def ranked_layout(text, info, model):
+    """the model's line assignment as a text whose line numbers are the ranks of the model's line values (one line break per
+    rank step); returns (text, {model line value: 1-based line in the text})"""
+    vals = {}
+    for i, c in enumerate(info['tokens']):
+        bt = c.v[0]
+        if bt[TOK_TYPE] == -1 or i not in info['lines']:
+            continue
+        vals[i] = model.eval(info['lines'][i][0], model_completion=True).as_long()
+    rank = {v: k + 1 for k, v in enumerate(sorted(set(vals.values())))}
+    out, cur = [], 1
+    for i in sorted(vals):
+        bt = info['tokens'][i].v[0]
+        s = text[bt[symgo.TOK_START]:bt[symgo.TOK_STOP] + 1]
+        r = rank[vals[i]]
+        if r != cur:
+            out.append('\n' * (r - cur))
+            cur = r
+        elif out:
+            out.append(' ')
+        out.append(s)
+    return ''.join(out) + '\n', rank
+
+
 def c12_text(t, dump, tier):
     res = []
     stats = {'paths': 0, 'inconclusive': []}
@@ -447,9 +471,15 @@ def c12_text(t, dump, tier):
             v = check_valid('C12:line', pc, z3.Not(z3.Or(inside)))
             if v.status == 'sat':
                 lines_concrete = [(v.model.eval(l if is_sym(l) else z3.BitVecVal(l, 64), model_completion=True).as_long()) for l, _ in errs]
+                try:
+                    lay, rank = ranked_layout(t.text, info, v.model)
+                    span = [rank[v.model.eval(lo, model_completion=True).as_long()], rank[v.model.eval(hi, model_completion=True).as_long()]]
+                except Exception:
+                    lay, span = None, None
                 res.append(BFinding('C12', 'visit', t.tag, 'diag-line:' + cls,
                                     'fault %s at source lines %d..%d: diagnostics are attributed to lines %s under a layout where the declaration spans %s..%s' % (
-                                        cls, a, b, lines_concrete, v.model.eval(lo, model_completion=True), v.model.eval(hi, model_completion=True)), {'text': t.text}))
+                                        cls, a, b, lines_concrete, v.model.eval(lo, model_completion=True), v.model.eval(hi, model_completion=True)),
+                                    {'text': t.text, 'relayout': lay, 'span': span}))
             elif v.status == 'unknown':
                 stats['inconclusive'].append('solver unknown')
         # refusal: error returned, nothing written
@@ -964,18 +994,31 @@ def c14_confirm(f, tier):
     text = (f.get('cex') or {}).get('text')
     if not text:
         return None, 'no witness text'
-    # three native runs each way: the outputs are compared as line multisets, so map order does not matter
-    seen_alone, seen_after = [], []
+    # three native runs each way.  A file the generator writes identically in all three "alone" runs is compared byte for byte;
+    # a file whose bytes vary between the "alone" runs (Go map iteration order, C13's subject) is compared as a multiset of lines.
+    alone, after = [], []
     for _ in range(3):
-        r = symgo.native_run([text], orders=[[g1, g2], [g2]], fmt=False, visit=False, content=True)[0]
-        gens = r.get('gens') or []
+        # one process per order: package-level state (of the repository or of a library) must not leak from one into the other
+        ra = symgo.native_run([text], orders=[[g1, g2]], fmt=False, visit=False, content=True)[0]
+        rb = symgo.native_run([text], orders=[[g2]], fmt=False, visit=False, content=True)[0]
+        gens = (ra.get('gens') or []) + (rb.get('gens') or [])
         if len(gens) < 2 or gens[0].get('panic') or gens[1].get('panic'):
             return None, 'native run did not complete: %s' % [g.get('panic') for g in gens]
-        seen_after.append(_file_lines((gens[0].get('files') or {}).get(g2)))
-        seen_alone.append(_file_lines((gens[1].get('files') or {}).get(g2)))
-    if any(a in seen_alone for a in seen_after):
+        after.append((gens[0].get('files') or {}).get(g2) or {})
+        alone.append((gens[1].get('files') or {}).get(g2) or {})
+    names = set().union(*[set(x) for x in alone + after])
+    differing = []
+    for k in sorted(names):
+        a = [re.sub(r'Copyright \d+', 'Copyright Y', x.get(k, '')) for x in alone]
+        b = [re.sub(r'Copyright \d+', 'Copyright Y', x.get(k, '')) for x in after]
+        if len(set(a)) == 1:
+            if any(y != a[0] for y in b):
+                differing.append(k)
+        elif not any(sorted(y.split('\n')) in [sorted(x.split('\n')) for x in a] for y in b):
+            differing.append(k)
+    if not differing:
         return False, 'natively %s writes the same files whether or not %s ran first' % (g2, g1)
-    return True, 'natively the files of %s differ when %s ran first' % (g2, g1)
+    return True, 'natively %s of %s differ when %s ran first' % (differing[:3], g2, g1)
 
 
 def c10_confirm(f, tier):
@@ -1081,13 +1124,66 @@ def c16_confirm(f, tier):
             bad = [k for k in want if _norm_lines(got[k]) != _norm_lines(want[k])]
             if bad:
                 return True, 'real binary: %s differs from the generator output' % bad[:2]
+            if any(got[k] != want[k] for k in want):
+                return None, 'real binary: same lines in another order than the native generator run (no statement)'
             return False, 'real binary writes exactly the generators\' files for this case'
     finally:
         shutil.rmtree(d, ignore_errors=True)
     return None, 'no native statement for this entry point'
 
 
-NATIVE_CONFIRM = {'C14': c14_confirm, 'C10': c10_confirm, 'C16': c16_confirm}
+def c12_confirm(f, tier):
+    cex = f.get('cex') or {}
+    sym = f.get('sig', '').split('|')[-1]
+    text = cex.get('text')
+    if text is None:
+        return None, 'no witness text'
+    if sym.startswith('diag-missing') or sym.startswith('diag-spurious'):
+        n = symgo.native_run([text], orders=[], fmt=False, visit=True)[0]
+        if n.get('panic') or n.get('parse_errors'):
+            return None, 'native visitor does not complete on the witness'
+        has = bool(n.get('model_errors'))
+        if sym.startswith('diag-missing'):
+            return (not has), 'native visitor reports %d diagnostics' % len(n.get('model_errors') or [])
+        return has, 'native visitor reports %d diagnostics' % len(n.get('model_errors') or [])
+    if sym.startswith('diag-line:') and cex.get('relayout') and cex.get('span'):
+        lay, (lo, hi) = cex['relayout'], cex['span']
+        n = symgo.native_run([lay], orders=[], fmt=False, visit=True)[0]
+        if n.get('panic') or n.get('parse_errors'):
+            return None, 'native visitor does not complete on the re-laid-out witness'
+        lines = [int(e[0]) for e in (n.get('model_errors') or [])]
+        if not lines:
+            return None, 'no native diagnostics on the re-laid-out witness'
+        if any(lo <= x <= hi for x in lines):
+            return False, 'natively a diagnostic sits at line %s, inside the declaration (lines %d..%d of the witness text)' % ([x for x in lines if lo <= x <= hi][:2], lo, hi)
+        return True, 'natively the diagnostics sit at lines %s, the declaration spans lines %d..%d of the witness text' % (lines[:4], lo, hi)
+    return None, 'no native statement'
+
+
+def c08_confirm(f, tier):
+    cex = f.get('cex') or {}
+    sym = f.get('sig', '').split('|')[-1]
+    if not sym.startswith(('differs:', 'attribute-leaks:')) or not cex.get('text') or not cex.get('base'):
+        return None, 'no native statement'
+    r = symgo.native_run([cex['base'], cex['base'], cex['text']], orders=[GENS], fmt=False, visit=False, content=True)
+    if any((x.get('gens') or [{}])[0].get('panic') for x in r) or any(not x.get('gens') for x in r):
+        return None, 'native generators do not complete'
+    a, a2, b = [(x['gens'][0].get('files') or {}) for x in r]
+    if sym.startswith('differs:'):
+        diff = []
+        for g in set(a) | set(b):
+            for k in set(a.get(g) or {}) | set(b.get(g) or {}):
+                x, x2, y = [re.sub(r'Copyright \d+', 'Copyright Y', (m.get(g) or {}).get(k, '')) for m in (a, a2, b)]
+                # a file written identically by two runs on the base text is compared byte for byte, otherwise as a line multiset
+                if (x != y) if x == x2 else (sorted(x.split('\n')) != sorted(y.split('\n'))):
+                    diff.append((g, k))
+        if diff:
+            return True, 'natively the two spellings generate different files: %s' % sorted(diff)[:3]
+        return False, 'natively both spellings generate the same files'
+    return None, 'no native statement'
+
+
+NATIVE_CONFIRM = {'C14': c14_confirm, 'C10': c10_confirm, 'C16': c16_confirm, 'C12': c12_confirm, 'C08': c08_confirm}
 
 
 # ---------------------------------------------------------------------------- driver
